@@ -14,6 +14,11 @@ CLAIMED = {
          "Every single-fault shape (reset/close/stall before headers, after headers, after k body bytes, truncated chunked, short Content-Length, garbage, refuse) is enumerated as first-dispatched backend in front of a healthy one on both engines x 3 proxy profiles, and fault combinations over 1..3 backends are rapid-generated; the client's bytes are compared with the per-backend transcripts (status, end-to-end headers, body prefix, no byte of another attempt, no dispatch after delivery began).",
          "Trusts the harness raw backend/client and that self-identifying body tiles attribute bytes correctly; schedules are those the harness produces (one request at a time per stack).",
          "DESIGN.md §3 C02"),
+ "C08": ("exploration",
+         "small-scope exhaustive enumeration of operation sequences + rapid sequences against a set-valued reference automaton; simulated time; concurrent admission race",
+         "All sequences over {failure, success, ask, advance <timeout, >timeout, >probe window} up to length 6 (quick) / 8 (thorough) are run against the three real breakers (health, olla engine, unifier with several configurations) and compared, ask by ask, with a reference automaton written from the statement that yields the set of allowed answers; every sequence ends with a recovery suffix (works again => closes, count cleared, trips again at threshold); longer sequences are rapid-generated; G concurrent callers race on a timed-out breaker and admissions are counted against the stated limits.",
+         "Time is simulated by rewinding stored timestamps through build-tag-guarded overlay hooks (exact for 'now - stored > timeout' code); where the statement is silent both answers are accepted; the concurrent part explores only the schedules the Go scheduler happens to produce.",
+         "DESIGN.md §3 C08"),
  "C06": ("exploration",
          "rapid-generated endpoint lists against a reference selector model; concurrent fairness counting",
          "Selectors obtained from balancer.Factory over a real stats collector are judged against reference rules on generated lists (n<=5, all statuses, priorities, gauge vectors) sequentially and from up to 32 goroutines: member-or-error, top-tier only and every tier member reached, exact k-per-member round-robin fairness over any window, minimal gauge for least-connections.",
